@@ -112,6 +112,17 @@ CONTRACT(PRE___get_isowk(y), POST___get_isowk(RV, y));
 int dt_dur_neg_p(struct dt_ddur_s dur)
 CONTRACT(PRE_dt_dur_neg_p(dur), POST_dt_dur_neg_p(RV, dur));
 
+/* comparison of same-typed dates: the chronological order (C08) */
+#define CMP_T(t) ((t) == DT_YMD || (t) == DT_YD || (t) == DT_YWD || (t) == DT_DAISY)
+#define PRE_dt_dcmp(d1, d2) ((d1).typ == (d2).typ && CMP_T((d1).typ) && V_d(d1) && V_d(d2))
+#define DCMP3(a, b) ((a) < (b) ? -1 : (a) > (b) ? 1 : 0)
+#define POST_dt_dcmp(ret, d1, d2) \
+	((ret) == ((d1).typ == DT_DAISY ? DCMP3((d1).daisy, (d2).daisy) : \
+		   (d1).typ == DT_YWD ? DCMP3(((int)(d1).ywd.y * 64 + (int)(d1).ywd.c) * 8 + (int)(d1).ywd.w, ((int)(d2).ywd.y * 64 + (int)(d2).ywd.c) * 8 + (int)(d2).ywd.w) : \
+		   (GY_d(d1) != GY_d(d2) ? DCMP3(GY_d(d1), GY_d(d2)) : DCMP3(GYD_d(d1), GYD_d(d2)))))
+int dt_dcmp(struct dt_d_s d1, struct dt_d_s d2)
+CONTRACT(PRE_dt_dcmp(d1, d2), POST_dt_dcmp(RV, d1, d2));
+
 #define DIFF_T(t) ((t) == DT_YMD || (t) == DT_YD || (t) == DT_DAISY || (t) == DT_LDN || (t) == DT_MDN)
 #define PRE_dt_ddiff(tgt, d1, d2, carry) ((tgt) == DT_DURD && V_d(d1) && V_d(d2) && DIFF_T((d1).typ) && DIFF_T((d2).typ))
 #define POST_dt_ddiff(ret, tgt, d1, d2, carry) ((ret).durtyp == DT_DURD && (ret).dv == AN_d(d2) - AN_d(d1) && (ret).neg == 0 && (ret).fix == 0)
